@@ -460,7 +460,10 @@ pub fn check(case: &Case) -> Outcome {
 
 pub fn strategy() -> BoxedStrategy<Case> {
     let raw_req = (
-        prop_oneof![3 => "/[ -~]{0,24}", 1 => "\\PC{0,16}", 1 => pick(BAD_STR.iter().map(|s| s.to_string()).collect()), 1 => Just("/".repeat(3000)), 1 => "/[a-z%?&=+#;]{0,40}"],
+        prop_oneof![3 => "/[ -~]{0,24}", 1 => "\\PC{0,16}", 1 => pick(BAD_STR.iter().map(|s| s.to_string()).collect()), 1 => Just("/".repeat(3000)), 1 => "/[a-z%?&=+#;]{0,40}",
+            // long runs of multi-byte characters at every alignment, in targets the URL parser accepts or refuses: any cut at
+            // a fixed byte offset falls inside a character for some of them
+            2 => (pick(vec!["", "/", "`", "http://h/", "/`"]), 0usize..5, pick(vec!["\u{e9}", "\u{65e5}", "\u{1f918}"]), 30usize..300).prop_map(|(pre, k, ch, n)| format!("{pre}{}{}", "a".repeat(k), ch.repeat(n)))],
         prop::option::of(prop_oneof!["[a-zA-Z.:\\[\\]0-9-]{0,20}", "\\PC{0,8}"]),
         prop_oneof![Just("X-A".to_string()), Just("User-Agent".to_string()), Just("X-Forwarded-For".to_string()), Just("Forwarded".to_string()), "[ -~]{0,10}"],
         prop_oneof![3 => "[ -~]{0,30}", 1 => Just("for=\"[::1]:80\";proto=https, for=unknown;by=_hidden,for=1.2.3.4".to_string()), 1 => Just("1.2.3.4, garbage, ::1, [::1]:8080".to_string()), 1 => "\\PC{0,12}", 2 => pick(FORWARDED.iter().map(|s| s.to_string()).collect())],
@@ -488,7 +491,7 @@ pub fn strategy() -> BoxedStrategy<Case> {
 // crash-prone parts run in child processes (rio-probe): FFI null matrix, long raw-text elements
 #[derive(Serialize, Deserialize, Clone, Debug, PartialEq)]
 pub struct ProbeCase {
-    /// "ffi-null" | "script"
+    /// "ffi-null" | "script" | "nested"
     pub kind: String,
     /// ffi-null: index of the combination ; script: variant of the script content
     pub index: u32,
@@ -558,6 +561,12 @@ pub fn check_probe(c: &ProbeCase) -> Outcome {
     out
 }
 
+pub const D34: &str = "d34-nested-prefix-recursion-stack-overflow-unoptimised";
+
+pub fn is_d34(c: &ProbeCase, msg: &str) -> bool {
+    c.kind == "nested" && c.profile == "unoptimised" && c.len > 300 && msg.contains("signal")
+}
+
 pub fn is_d12(c: &ProbeCase, msg: &str) -> bool {
     c.kind == "script" && c.profile == "unoptimised" && c.len >= 4096 && msg.contains("signal")
 }
@@ -591,8 +600,20 @@ pub fn run(ctx: &Ctx) -> Report {
             }
         }
     }
+    // routers whose patterns are nested prefixes of one another (path / host): one tree level, and one stack frame of
+    // insert / find / trace / cache / remove, per rule (known finding D34 in the unoptimised build)
+    let d34_listed = crate::known::is_listed("C07", D34);
+    let nested: &[u64] = if ctx.tier == Tier::Quick { &[10, 300, 1000] } else { &[10, 300, 1000, 2000] };
+    for variant in 0..2u32 {
+        for &len in nested {
+            probes.push(ProbeCase { kind: "nested".into(), index: variant, len, profile: "release".into(), stack_kib: 2048 });
+            if !d34_listed || len <= 300 {
+                probes.push(ProbeCase { kind: "nested".into(), index: variant, len, profile: "unoptimised".into(), stack_kib: 2048 });
+            }
+        }
+    }
     let n = probes.len() as u64;
-    let r = run_enum(ctx, "probes", n, true, &format!("{n} child-process probes: extern C null matrix (exhaustive), long raw-text elements x 6 variants x sizes {:?} x {{optimised, unoptimised}}", sizes), |i| Some(probes[i as usize].clone()), check_probe, &[KnownSig { name: D12, pred: is_d12 }]);
+    let r = run_enum(ctx, "probes", n, true, &format!("{n} child-process probes: extern C null matrix (exhaustive), long raw-text elements x 6 variants x sizes {:?} x {{optimised, unoptimised}}, routers of {:?} nested-prefix rules (path, host) x {{optimised, unoptimised}}", sizes, nested), |i| Some(probes[i as usize].clone()), check_probe, &[KnownSig { name: D12, pred: is_d12 }, KnownSig { name: D34, pred: is_d34 }]);
     rep.add(r);
     rep
 }
